@@ -1859,7 +1859,19 @@ register_foreach_in(RegisterTable *t,
     }
 
     if (startreg.valid == false) {
-        return rv;
+        /* The start address is not part of any register (it is in a gap
+         * between registers, in an area without registers or not mapped at
+         * all). Start with the first register behind it, if there is one:
+         * Registers are sorted by address and none of them contains addr, so
+         * the ones with a lower address are completely outside the range. */
+        RegisterHandle i = 0u;
+        while (i < t->entries && t->entry[i].address < addr) {
+            i++;
+        }
+        if (i == t->entries) {
+            return rv;
+        }
+        startreg.handle = i;
     }
 
     return reg_iterate(t, startreg.handle, addr + off - 1u, f, arg);
